@@ -177,6 +177,7 @@ def c18(ctx, rep):
 
 def c07(ctx, rep):
     rules_bounds.helper_contracts(ctx, rep)
+    rules_tables.registry_api(ctx, rep)
     rules_cmp.dispatch(ctx, rep)
     rules_cmp.counter_pairing(ctx, rep)
     rules_cmp.skip_normalised(ctx, rep)
